@@ -20,6 +20,15 @@ Correspondence streams (engine `c10`, models `Model/SpecMeta.lean`, `Model/Specs
            hand-made), as strings, as ONE formula string, as a `SimpleFormula`, as a structured formula, with
            `ordering=` degree / none / sort (the harness forwards the parsed, not yet ordered, term list with
            per-factor literal flags; the ordering step runs in the model).
+           HISTORIES: on the one spec object a history of up to 260 single accessor calls is run, drawn with
+           repetition and in random order from all look-up probes (every accessor: `term_indices[...]`, `.get`, `in`,
+           `term_slices[...]`, `.get`, `in`, `get_slice`, `get_term_indices`, `column_indices[...]`,
+           `get_column_indices`, `variable_indices[...]`, `get_variable_indices`; by Term, printed form, sorted form,
+           column name, junk; succeeding and failing mixed) — in half of the cases BEFORE any derived attribute is read
+           (the metadata is then read for the first time after the look-ups), otherwise between two readings — and at
+           the end of the case `term_indices`, `term_slices`, `term_variables`, `column_indices` are read again (items,
+           `len()`, iteration). The model runs the same history on its state machine (`SpecState.run`: the cached
+           mappings are the state) and returns every outcome and the final state.
 * `meta:nostruct`  the same on a `ModelSpec` that was never materialized (`structure is None`): every
            structure-derived attribute raises `RuntimeError`, the formula-derived ones answer.
 * `specs`  a structured formula (`y ~ …`, `… | …`, keyword parts, tuples) materialized in one call; the harness
@@ -79,6 +88,8 @@ REQUIRED_THEOREMS = [
     "spec_subset",
     "specs_subset_leafwise",
     "specs_required_variables",
+    "lookup_history_pure",
+    "history_step_is_lookup",
     "tables_live",
 ]
 TRUSTED = [
@@ -133,7 +144,9 @@ RULE = (
     "by index, reversed factor order, a foreign term, repeats) written as own Term objects / hand-made Term objects / strings / "
     "one formula string / a SimpleFormula / a structured formula, ordering in default/degree/none/sort; 1-4 get_slice "
     "identifiers (ints incl. negative, beyond the end and bool; slices; None, float, tuple, numpy integer, bytes, frozenset; "
-    "list, dict, set); Term probes with repeated factors. meta:nostruct: the same on an unmaterialized ModelSpec (8 cases). "
+    "list, dict, set); Term probes with repeated factors; per case a history of up to 260 accessor calls drawn with repetition "
+    "from all look-up probes, run before the first reading of the metadata (half of the cases) or between two readings, the "
+    "mappings read again at the end. meta:nostruct: the same on an unmaterialized ModelSpec (8 cases). "
     "meta:rediff: a materialized spec after ModelSpec.differentiate (8 cases): the structure of the original terms must be gone. "
     "specs: structured formulas lhs~rhs, a|b, a|b|c, lhs~a|b, root+extra keys, keys with a tuple root (40 cases) with 3-6 "
     "requests each (same structure, a part dropped, an extra key, a longer tuple, list-for-tuple, tuple-for-list, no "
@@ -426,6 +439,8 @@ def gen_meta_case(rng, tier, p_call=0.1):
         subsets=subsets,
         idents=idents,
         dupfac=rng.random() < 0.3,
+        hseed=rng.randrange(1 << 30),      # the history of look-ups made on the spec (order, repetitions)
+        hist_first=rng.random() < 0.5,     # look-ups before the metadata is read for the first time / between two readings
     )
 
 
@@ -713,13 +728,35 @@ ATTRS = ["column_names", "column_indices", "term_indices", "term_slices", "term_
 NOFAIL = {"term_factors", "factors", "factor_terms", "factor_contrasts"}
 
 
+def _kexprs(k):
+    """the key of a Term-keyed mapping: a Term is dumped as its factor expressions; anything else that found its way
+    among the keys is dumped as a marker (it makes every comparison with the terms of the spec fail)"""
+    from formulaic.parser.types import Term
+
+    return _exprs(k) if isinstance(k, Term) else ["\x00key of type " + type(k).__name__ + ": " + repr(k)]
+
+
+def _dump_mappings(spec, out):
+    """the per-term / per-column mappings, exactly as a reader sees them now (items, len(), iteration)"""
+    out["column_indices"] = _res(lambda: [[k, v] for k, v in spec.column_indices.items()])
+    out["term_indices"] = _res(lambda: [[_kexprs(k), list(v)] for k, v in spec.term_indices.items()])
+    out["term_slices"] = _res(lambda: [[_kexprs(k), _slice(v)] for k, v in spec.term_slices.items()])
+    out["term_variables"] = _res(lambda: [[_kexprs(k), _vars(v)] for k, v in spec.term_variables.items()])
+    out["lens"] = _res(lambda: dict(term_indices=len(spec.term_indices), term_slices=len(spec.term_slices),
+                                    column_indices=len(spec.column_indices), term_variables=len(spec.term_variables)))
+    out["iters"] = _res(lambda: dict(term_indices=[_kexprs(k) for k in spec.term_indices],
+                                     term_slices=[_kexprs(k) for k in spec.term_slices.keys()],
+                                     column_indices=[k for k in spec.column_indices],
+                                     term_variables=[_kexprs(k) for k in spec.term_variables]))
+
+
+MAPPINGS = ["term_indices", "term_slices", "column_indices", "term_variables"]
+
+
 def _dump_attrs(spec, out):
     tkey = lambda t: ":".join(t._factor_key)
     out["column_names"] = _res(lambda: list(spec.column_names))
-    out["column_indices"] = _res(lambda: [[k, v] for k, v in spec.column_indices.items()])
-    out["term_indices"] = _res(lambda: [[_exprs(k), list(v)] for k, v in spec.term_indices.items()])
-    out["term_slices"] = _res(lambda: [[_exprs(k), _slice(v)] for k, v in spec.term_slices.items()])
-    out["term_variables"] = _res(lambda: [[_exprs(k), _vars(v)] for k, v in spec.term_variables.items()])
+    _dump_mappings(spec, out)
     out["variable_terms"] = _res(lambda: sorted([str(k), sorted(tkey(t) for t in v)] for k, v in spec.variable_terms.items()))
     out["variable_indices"] = _res(lambda: sorted([str(k), list(v)] for k, v in spec.variable_indices.items()))
     out["term_factors"] = _res(lambda: [[_exprs(k), sorted(f.expr for f in v)] for k, v in spec.term_factors.items()])
@@ -745,6 +782,74 @@ def _ident_obj(d):
         return {"none": None, "float": 1.5, "tuple": ("a",), "npint": numpy.int64(d.get("i", 0)), "bytes": b"a",
                 "frozenset": frozenset(["a"])}[d["which"]]
     return {"list": ["a"], "dict": {"a": 1}, "set": {"a"}}[d["which"]]
+
+
+def _history_ops(probes, tidx_specs, hseed):
+    """A history of single accessor calls drawn (with repetition, in random order) from the look-up probes: every
+    accessor of the term / column / variable mappings, by Term, printed form, column name, junk; succeeding and failing
+    look-ups mixed. Each op remembers the probe and field that holds its first-pass answer (`pi`, `f`)."""
+    import random
+
+    pool = []
+    for i, p in enumerate(probes):
+        if p["k"] in ("term", "str"):
+            key = {"k": p["k"], "t": p["t"]} if p["k"] == "term" else {"k": "str", "s": p["s"]}
+            for op, f in (("ti", "ti"), ("ti_get", "get"), ("ti_in", "in"), ("ts", "ts"), ("ts_get", None), ("ts_in", None),
+                          ("gs", "gs")):
+                pool.append({"op": op, "key": key, "pi": i, "f": f})
+            if p["k"] == "str":
+                pool.append({"op": "ci", "s": p["s"], "pi": i, "f": "ci"})
+                pool.append({"op": "cols", "names": [p["s"]], "pi": i, "f": "gci"})
+        elif p["k"] == "var":
+            pool.append({"op": "vi", "s": p["s"], "pi": i, "f": "vi"})
+            pool.append({"op": "gvi", "names": [p["s"]], "pi": i, "f": "gvi"})
+        elif p["k"] == "ident":
+            pool.append({"op": "gs", "key": {x: y for x, y in p.items() if x != "k"}, "pi": i, "f": "gs"})
+        elif p["k"] == "cols":
+            pool.append({"op": "cols", "names": p["names"], "pi": i, "f": None})
+    for parsed in tidx_specs:
+        pool.append({"op": "tidx", "spec": parsed, "ordering": "degree", "pi": None, "f": None})
+    rng = random.Random(hseed)
+    n = min(2 * len(pool), 260)
+    return [dict(rng.choice(pool)) for _ in range(n)] if pool else []
+
+
+def _run_op(spec, op, tidx_objs):
+    k = op["op"]
+    if k in ("ti", "ti_get", "ti_in", "ts", "ts_get", "ts_in", "gs"):
+        kd = op["key"]
+        if kd.get("k") == "term":
+            key = _mk_term(kd["t"])
+        elif kd.get("k") == "str":
+            key = kd["s"]
+        else:
+            key = _ident_obj(kd)
+        opt = lambda v, f: None if v is None else f(v)
+        return {
+            "ti": lambda: list(spec.term_indices[key]),
+            "ti_get": lambda: opt(spec.term_indices.get(key), list),
+            "ti_in": lambda: key in spec.term_indices,
+            "ts": lambda: _slice(spec.term_slices[key]),
+            "ts_get": lambda: opt(spec.term_slices.get(key), _slice),
+            "ts_in": lambda: key in spec.term_slices,
+            "gs": lambda: _slice3(spec.get_slice(key)),
+        }[k]
+    if k == "tidx":
+        ts = tidx_objs[canonical_json(op["spec"])]
+        return lambda: list(spec.get_term_indices(list(ts)))
+    if k == "ci":
+        return lambda: spec.column_indices[op["s"]]
+    if k == "cols":
+        return lambda: list(spec.get_column_indices(list(op["names"])))
+    if k == "vi":
+        return lambda: list(spec.variable_indices[op["s"]])
+    return lambda: list(spec.get_variable_indices(list(op["names"])))
+
+
+def canonical_json(x):
+    import json
+
+    return json.dumps(x, sort_keys=True)
 
 
 def _parsed_spec(ts, ordering):
@@ -836,9 +941,11 @@ def impl(c):
     out["uses"] = {f.expr: source_uses(f.expr, f.eval_method.value) for t in spec.formula for f in t.factors}
     out["scope"] = sorted(set(df.columns) | set(ctx) | set(_transform_names()))
     out["datacols"] = sorted(str(x) for x in df.columns)
-    _dump_attrs(spec, out)
+    hist_first = bool(c.get("hist_first")) and spec.structure is not None
+    if not hist_first:
+        _dump_attrs(spec, out)
 
-    # ---- probes
+    # ---- probes (built from the recorded structure alone: no derived attribute is read here)
     probes = []
     terms = [s.term for s in spec.structure] if spec.structure is not None else list(spec.formula)
     for t in terms:
@@ -853,7 +960,7 @@ def impl(c):
         if len(ex) > 1:
             probes.append({"k": "str", "s": ":".join(ex[::-1])})
     probes.append({"k": "term", "t": ["zz"]})
-    names_now = list(spec.column_names) if spec.structure is not None else []
+    names_now = [str(x) for r in spec.structure for x in r.columns] if spec.structure is not None else []
     for n in dict.fromkeys(names_now):
         probes.append({"k": "str", "s": n})
     for s in c["junk"]:
@@ -872,6 +979,29 @@ def impl(c):
         if d["kind"] == "int" and d.get("rel"):  # relative to the number of columns
             d["i"] = len(names_now) + d["i"]
         probes.append(dict(d, k="ident"))
+
+    # ---- a history of look-ups on the one spec object. Either BEFORE any derived attribute was read
+    # (`hist_first`: the metadata is then read for the first time after the look-ups) or after the first pass below;
+    # at the very end the mappings are read again and must be what they were.
+    history, history_out = [], []
+    if spec.structure is not None:
+        tidx_objs = {}
+        for tl in ([_Term(list(t.factors)) for t in terms[::-1]], [_Term(list(t.factors)) for t in terms[:1]] + [_mk_term(["zz"])]):
+            try:
+                tidx_objs[canonical_json(_parsed_spec(tl, None))] = tl
+            except Exception:
+                pass
+        import json as _json
+
+        history = _history_ops(probes, [_json.loads(k) for k in tidx_objs], c.get("hseed", 0))
+
+    def run_history():
+        for op in history:
+            history_out.append(_res(_run_op(spec, op, tidx_objs)))
+
+    if hist_first:
+        run_history()
+        _dump_attrs(spec, out)
     outs = []
     for p in probes:
         if p["k"] == "term":
@@ -963,9 +1093,17 @@ def impl(c):
             except Exception as e:
                 rec["mat_error"] = type(e).__name__ + ": " + str(e)[:120]
         subs.append(rec)
+    if spec.structure is not None and not hist_first:
+        run_history()
     out["probes"] = probes
     out["probe_out"] = outs
     out["subs"] = subs
+    out["history"] = history
+    out["history_out"] = history_out
+    out["hist_first"] = hist_first
+    if spec.structure is not None:  # read the mappings again, after every look-up of this case
+        out["after"] = {}
+        _dump_mappings(spec, out["after"])
     return out
 
 
@@ -1120,6 +1258,7 @@ def request(c, o):
         formula=o["formula"],
         enc=o["enc"],
         probes=o["probes"],
+        history=o.get("history", []),
         materializer=c["mat"],
         output=c["output"],
     )
@@ -1168,6 +1307,22 @@ def _agree(c, o, m):
     for p, a, b in zip(o["probes"], o["probe_out"], m["probes"]):
         if a != b:
             return f"probe {p}: impl {a} vs model {b}"
+    if "after" in o:
+        mh = m.get("history") or {}
+        mo = mh.get("out", [])
+        if len(mo) != len(o["history_out"]):
+            return "history length differs"
+        for i, (op, a, b) in enumerate(zip(o["history"], o["history_out"], mo)):
+            if a != b:
+                return f"history step {i} {op}: impl {a} vs model {b}"
+        ma = mh.get("after", {})
+        for k in MAPPINGS:
+            if o["after"][k] != {"ok": ma.get(k)}:
+                return f"{k} after the history of look-ups: impl {o['after'][k]} vs model {ma.get(k)}"
+        if o["after"]["lens"] != {"ok": {k: len(ma.get(k, [])) for k in MAPPINGS}}:
+            return f"len() after the history of look-ups: impl {o['after']['lens']} vs model {[len(ma.get(k, [])) for k in MAPPINGS]}"
+        if o["after"]["iters"] != {"ok": {k: [e[0] for e in ma.get(k, [])] for k in MAPPINGS}}:
+            return f"iteration after the history of look-ups: impl {o['after']['iters']}"
     return None
 
 
@@ -1337,6 +1492,7 @@ def _reasons(c, o):
         if k in o and "err" in o[k] and k != "factor_variables":
             yield f"attribute {k} raised {o[k]['err']} on a materialized spec"
             return
+    yield from _history_reasons(c, o)
     blocks, total = _blocks(o)
     names = [n for r in o["structure"] for n in r["columns"]]
     column_names = o["column_names"]["ok"]
@@ -1512,6 +1668,55 @@ def _reasons(c, o):
     return
 
 
+def _history_reasons(c, o):
+    """look-ups do not change the metadata: after any history of look-ups (by Term, printed form, column name; through
+    every accessor; succeeding or failing; repeated) the per-term / per-column mappings read exactly as before — same
+    keys, one per term of the spec, same order, same ranges, len() and iteration included — and a repeated look-up is
+    answered as it was answered the first time"""
+    if "after" not in o:
+        return
+    a = o["after"]
+    when = "read for the first time after" if o.get("hist_first") else "read again after"
+    for k in MAPPINGS + ["lens", "iters"]:
+        if "err" in a[k]:
+            yield f"look-up history: {k} {when} {len(o['history'])} look-ups raised {a[k]['err']}"
+            return
+    for k in MAPPINGS:
+        if a[k] != o[k]:
+            yield f"look-up history: {k} changed between two readings with only look-ups in between: {o[k]} then {a[k]}"
+    keys = []
+    for r in o["structure"]:
+        if _key(r["term"]) not in [_key(t) for t in keys]:
+            keys.append(r["term"])
+    for k in ("term_indices", "term_slices", "term_variables"):
+        got = [e[0] for e in a[k]["ok"]]
+        if [_key(t) for t in got] != [_key(t) for t in keys]:
+            yield (f"look-up history: {k} {when} {len(o['history'])} look-ups has keys {got}; the spec has the terms "
+                   f"{keys} (one key per term, in this order)")
+        if a["lens"]["ok"][k] != len(keys):
+            yield f"look-up history: len({k}) = {a['lens']['ok'][k]} {when} the look-ups; the spec has {len(keys)} different terms"
+        if a["iters"]["ok"][k] != got:
+            yield f"look-up history: iterating {k} gives {a['iters']['ok'][k]}, its items have the keys {got}"
+    ncol = len({n for r in o["structure"] for n in r["columns"]})
+    if a["lens"]["ok"]["column_indices"] != ncol or a["iters"]["ok"]["column_indices"] != [e[0] for e in a["column_indices"]["ok"]]:
+        yield f"look-up history: column_indices has len {a['lens']['ok']['column_indices']} / keys {a['iters']['ok']['column_indices']}; {ncol} different column names"
+    cat = [i for _, v in a["term_indices"]["ok"] for i in v]
+    total = sum(len(r["columns"]) for r in o["structure"])
+    if len({_key(r["term"]) for r in o["structure"]}) == len(o["structure"]) and cat != list(range(total)):
+        yield f"look-up history: term_indices {when} the look-ups concatenates to {cat}, not 0..{total - 1} (contiguous, disjoint, covering)"
+    # repeated look-ups answer alike, and like the same look-up of the first pass
+    seen = {}
+    for i, (op, r) in enumerate(zip(o["history"], o["history_out"])):
+        sig = canonical_json({x: y for x, y in op.items() if x not in ("pi", "f")})
+        if sig in seen and seen[sig][1] != r:
+            yield f"look-up history: step {i} {op} answered {r}; the same look-up answered {seen[sig][1]} at step {seen[sig][0]}"
+        seen.setdefault(sig, (i, r))
+        if op.get("pi") is not None and op.get("f") is not None:
+            first = o["probe_out"][op["pi"]].get(op["f"])
+            if first is not None and first != r:
+                yield f"look-up history: step {i} {op} answered {r}; the same look-up outside the history answered {first}"
+
+
 def _spec_keys(p):
     """the requested terms of a tidx/subset probe as sorted-factor keys (None for a structured request)"""
     sp = p["spec"]
@@ -1614,7 +1819,7 @@ def classify(c, o, why):
 
 
 LEVEL_TEXT = (
-    "Proof: 24 Lean theorems (Props/C10.lean) about the executable models of ModelSpec's derived metadata (Model/SpecMeta.lean) "
+    "Proof: 26 Lean theorems (Props/C10.lean) about the executable models of ModelSpec's derived metadata (Model/SpecMeta.lean) "
     "and of ModelSpecs.subset (Model/SpecsMeta.lean), for ALL structures / formulas / requests: column names = matrix labels "
     "(positional assembly: always; name-keyed assembly: iff the names are distinct; which assembly each materializer/output "
     "uses is decided against a table probed on the live package); term ranges are the consecutive blocks of the structure rows "
@@ -1634,6 +1839,9 @@ LEVEL_TEXT = (
     "ModelSpecs.subset is _map of the request with, at every part, the subset of the spec at the same path, and each way it "
     "fails (no structure, foreign key, index beyond a tuple, tuple/nested specs at a part's path, foreign term) is modelled; "
     "ModelSpecs.required_variables is the union of the parts'. "
+    "Histories: the cached mappings are the state of a state machine with one transition per accessor; for EVERY sequence of "
+    "look-ups the state is unchanged and every call is answered as if it were the first (lookup_history_pure), and on the state "
+    "of a materialized spec each transition is the look-up function the other theorems describe (history_step_is_lookup). "
     "The models are tied to the code by a differential correspondence on every run; regenerated VALUES of a subset are checked "
     "on the real code by the oracle."
 )
